@@ -276,11 +276,28 @@ def window_clamp(rep, prog, rule):
                     "start before / end after the source row" % (name, s[:160], fn_, bound))
     # normalisation
     found = False
-    for g in f.closures():
-        gs = Sym(g)
+    # the function, its closures and the helpers of the same file it calls (two levels)
+    scope, frontier = [], [f]
+    for _ in range(3):
+        nxt = []
+        for g in frontier:
+            if g in scope:
+                continue
+            scope.append(g)
+            nxt += list(g.closures())
+            for c in g.calls():
+                for tg in prog.call_targets(c):
+                    if tg.file == f.file and tg.kind != "closure":
+                        nxt.append(tg)
+        frontier = nxt
+    for g in scope:
+        if g is f:
+            continue            # the scale / window computations of the function itself divide too
         for blk in g.blocks:
             for st in blk["s"]:
-                if st[0] == "a" and st[2][0] == "bin" and st[2][1] == "Div":
+                if st[0] == "a" and st[2][0] == "bin" and st[2][1] == "Div" and \
+                        (g.local_ty(st[1][0]) if len(st[1]) == 1 else "f64") in ("f64", None) or \
+                        (st[0] == "a" and st[2][0] == "bin" and st[2][1] == "Div" and "*" in st[1][1:]):
                     found = True
     if found:
         rep.ok(rule, "normalise", f.loc, "weights divided by their sum")
